@@ -289,3 +289,105 @@ def lpm_configs(max_n, ws, bufs):
                     for f in range(0, n + 1):
                         out.append(dict(base, fail_at=f, fail_cls='exc', fn_fail=[]))
     return out
+
+
+# ---- dataset level: ds.prefetch(...) / ds.map(fn, num_workers=...) --------------
+
+class OtherError(Exception):
+    pass
+
+
+def _fail_exc(kind):
+    from lazy_dataset.core import FilterException
+    return FilterException if kind == 'filter' else OtherError
+
+
+def run_ds(cfg, choose):
+    """cfg: api 'prefetch' | 'parmap', n, buf, w, fn_fail [items], fail_kind
+    'filter' | 'other', cfe 0/1 (catch_filter_exception=True), stop, stop_k.
+    The mapped function is instrumented (call / ret are scheduling points)."""
+    import lazy_dataset
+    ctl = detsched.Controlled(choose)
+    with ctl as sched:
+        sched.item_code = lambda it: it if isinstance(it, int) else SENT
+        fn_fail = set(cfg['fn_fail'])
+        exc = _fail_exc(cfg['fail_kind'])
+
+        def fn(x):
+            sched.point('call')
+            sched.log('call', x)
+            sched.point('ret')
+            if x in fn_fail:
+                sched.log('ret', x, 0)
+                raise exc(x)
+            sched.log('ret', x, 1)
+            return x
+
+        delivered = []
+        end = 'running'
+        len_ok = True
+        try:
+            src = lazy_dataset.new(list(range(1, cfg['n'] + 1)))
+            if cfg['api'] == 'prefetch':
+                ds = src.map(fn).prefetch(cfg['w'], cfg['buf'],
+                                          catch_filter_exception=True if cfg['cfe'] else None)
+                if not cfg['cfe']:
+                    len_ok = len(ds) == cfg['n']
+            else:
+                ds = src.map(fn, num_workers=cfg['w'], buffer_size=cfg['buf'])
+                len_ok = len(ds) == cfg['n']
+            gen = iter(ds)
+            if cfg['stop'] == 'close' and cfg['stop_k'] == 0:
+                gen.close()
+                end = 'closed'
+            else:
+                while True:
+                    try:
+                        item = next(gen)
+                    except StopIteration:
+                        end = 'returned'
+                        break
+                    sched.point('yield')
+                    delivered.append(item)
+                    sched.log('yield', item)
+                    if cfg['stop'] == 'close' and len(delivered) == cfg['stop_k']:
+                        sched.log('close')
+                        gen.close()
+                        end = 'closed'
+                        break
+        except Abort:
+            end = sched.abort_reason
+        except (OtherError, _fail_exc('filter')):
+            end = 'raised_fn'
+        except BaseException as e:
+            end = 'raised_other_' + type(e).__name__
+        nev = len(sched.events)
+        sched.events.append({'th': 'C', 'op': 'back', 'a': -1, 'b': -1})
+        alive = sched.idle_until_quiescent() if end not in ('deadlock', 'diverged') else []
+    rec = dict(cfg)
+    rec.update({'kind': 'ds', 'events': sched.events, 'delivered': delivered, 'end': end,
+                'alive': len(alive), 'deadlock': bool(sched.deadlock), 'nback': nev,
+                'len_ok': bool(len_ok), 'backend': 't', 'controlled': True})
+    return rec, sched
+
+
+def ds_configs(max_n, ws, bufs):
+    out = []
+    for n in range(0, max_n + 1):
+        for api in ('prefetch', 'parmap'):
+            for w in ws:
+                for buf in bufs:
+                    if buf < w:
+                        continue
+                    fails = [([], 'filter', 0)] + [([f], kind, cfe)
+                                                   for f in range(1, n + 1)
+                                                   for kind in ('filter', 'other')
+                                                   for cfe in ((0, 1) if api == 'prefetch' else (0,))]
+                    if api == 'prefetch' and n >= 2:
+                        fails.append(([1, 2], 'filter', 1))
+                    for fn_fail, kind, cfe in fails:
+                        stops = [('exhaust', 0)] + [('close', k) for k in range(1, n + 1)]
+                        for stop, k in stops:
+                            out.append({'api': api, 'n': n, 'buf': buf, 'w': w, 'fn_fail': fn_fail,
+                                        'fail_kind': kind, 'cfe': cfe, 'stop': stop, 'stop_k': k})
+    return out
